@@ -135,6 +135,58 @@ fn distinct_pairs(rng: &mut Rng, n: usize) -> Vec<(i64, i64)> {
     keys.into_iter().map(|k| (k, rng.range(-50, 50))).collect()
 }
 
+/// family `huge`: n distinct keys inserted in order, every 997th overwritten afterwards; summary facts only
+fn add_huge(st: &mut Stream, n: usize, family: &str) {
+    let id = st.next_id();
+    let key = |j: usize| (j as i64) * 7 + 3;
+    let out = catch(move || {
+        let mut m: M = CompactOrderedHashMap::empty();
+        for j in 0..n {
+            m.insert(key(j), j as i64);
+        }
+        let mut j = 0;
+        while j < n {
+            m.insert(key(j), -(j as i64) - 1); // overwrite: slot kept
+            j += 997;
+        }
+        let mut samples: Vec<usize> = (0..n).step_by(4096).collect();
+        if n > 0 {
+            samples.push(n - 1);
+        }
+        let idx: Vec<String> = samples.iter().map(|j| show_opt(&m.get_index(&key(*j)), |v| v.to_string())).collect();
+        let mut seen = std::collections::HashSet::new();
+        for j in 0..n {
+            if let Some(i) = m.get_index(&key(j)) {
+                seen.insert(i);
+            }
+        }
+        let iter_keys: Vec<i64> = m.iter().map(|(k, _)| *k).collect();
+        let keys: Vec<i64> = m.keys().cloned().collect();
+        let want: Vec<i64> = (0..n).map(key).collect();
+        let asc = m.to_vec().iter().enumerate().all(|(i, (_, e))| format!("{:?}", e).contains(&format!("index: {} ", i)) || format!("{:?}", e).ends_with(&format!("index: {} }}", i)));
+        let vals = (0..n).all(|j| m.get(&key(j)) == Some(&(if j % 997 == 0 { -(j as i64) - 1 } else { j as i64 })));
+        format!(
+            "len={} idx=[{}] distinct_indices={} iter_len={} keys_len={} iter_in_insertion_order={} keys_in_insertion_order={} to_vec_indices_ascending={} values_ok={}",
+            m.len(),
+            idx.join(","),
+            seen.len(),
+            iter_keys.len(),
+            keys.len(),
+            show_bool(iter_keys == want),
+            show_bool(keys == want),
+            show_bool(asc),
+            show_bool(vals)
+        )
+    })
+    .unwrap_or_else(|e| format!("PANIC {}", e));
+    st.count(&format!("family:{}", family));
+    st.count("crosses_4_to_5");
+    st.count(&format!("huge_keys:{}", n));
+    st.mark_nontrivial(&format!("huge{}", n));
+    let terms = vec![format!("line_huge \"M\"%string {} {}", id, n), format!("line_huge \"S\"%string {} {}", id, n)];
+    st.case(terms, vec![format!("I {} {}", id, out)], json!({"id": id, "family": family, "huge": n}));
+}
+
 fn main() {
     silence_panics();
     let a = parse_args();
@@ -148,6 +200,11 @@ fn main() {
         st.full = true;
         let v: serde_json::Value = serde_json::from_str(&std::fs::read_to_string(p).unwrap()).unwrap();
         let case = &v["case"];
+        if let Some(n) = case.get("huge").and_then(|x| x.as_u64()) {
+            add_huge(&mut st, n as usize, "replay");
+            st.finish();
+            return;
+        }
         let ops: Vec<(i64, i64)> = serde_json::from_value(case["ops"].clone()).unwrap();
         let c = parse_ctor(case["ctor"].as_str().unwrap());
         add_case(&mut st, c, ops, "replay");
@@ -170,6 +227,10 @@ fn main() {
         }
         add_case(&mut st, Ctor::New(base.clone()), vec![(11, 1), (12, 2), (10, 3)], "grow_from_new");
         add_case(&mut st, Ctor::Empty, base.clone(), "grow_from_empty");
+    }
+    // far past every small-size specialisation and past 2^16 keys
+    for n in [65535usize, 65536, 65537, 70000] {
+        add_huge(&mut st, n, "huge");
     }
     // duplicate keys at construction (outside "a set of features": model-only comparison)
     add_case(&mut st, Ctor::New(vec![(1, 1), (1, 2)]), vec![], "new_with_duplicates");
@@ -529,10 +590,52 @@ mod state {
         l.iter().map(|(n, f)| (n.clone(), to_feature(f))).collect()
     }
     /// a JSON object of features in the serde form of StateFeature (what a config file / a query carries)
+    /// The JSON goes through TEXT whenever an `initial` of a distance / time / energy feature is a whole number: the
+    /// number is then written as an integer literal (-5, 0, -0, 9007199254740992, 18446744073709551615 for 2^64,
+    /// -9223372036854775808), as a float literal (-5.0) or in exponent form (-5E0, 12e3), by position in the list, and
+    /// the text is parsed by serde_json as a configuration file or a query is. A JSON number is a number however it is
+    /// spelled. (Other values stay binary64 inside the JSON value: decimal text of 17 digits is not parsed exactly by
+    /// serde_json without its float_roundtrip feature.)
+    fn number_literal(x: f64, style: usize) -> Option<String> {
+        if !x.is_finite() || x.fract() != 0.0 || x.abs() > 18446744073709551616.0 {
+            return None;
+        }
+        let big = x.abs() >= 9007199254740992.0;
+        let int = if x == 18446744073709551616.0 {
+            "18446744073709551615".to_string() // u64::MAX: read as u64, `as f64` = 2^64
+        } else if x == 0.0 && x.is_sign_negative() {
+            "-0".to_string()
+        } else {
+            format!("{}", x as i128)
+        };
+        Some(match (style % 3, big) {
+            (0, _) | (_, true) => int,
+            (1, _) => format!("{:?}", x),
+            _ => {
+                let i = x as i128;
+                if i != 0 && i % 1000 == 0 {
+                    format!("{}e3", i / 1000)
+                } else if x == 0.0 && x.is_sign_negative() {
+                    "-0E0".to_string()
+                } else {
+                    format!("{}E0", i)
+                }
+            }
+        })
+    }
     fn features_json(l: &[(String, Feat)]) -> Value {
         let mut m = serde_json::Map::new();
-        for (n, f) in l {
-            m.insert(n.clone(), serde_json::to_value(to_feature(f)).unwrap());
+        for (k, (n, f)) in l.iter().enumerate() {
+            let mut v = serde_json::to_value(to_feature(f)).unwrap();
+            if let Feat::Unit(_, _, x) = f {
+                if let Some(lit) = number_literal(*x, k + n.len()) {
+                    // this feature's JSON goes through text, the number spelled as chosen
+                    v["initial"] = json!("@@NUM@@");
+                    let text = serde_json::to_string(&v).unwrap().replace("\"@@NUM@@\"", &lit);
+                    v = serde_json::from_str(&text).unwrap_or_else(|e| json!(format!("unparsable text {}: {}", text, e)));
+                }
+            }
+            m.insert(n.clone(), v);
         }
         Value::Object(m)
     }
@@ -1079,8 +1182,8 @@ mod state {
             2 => 2.5,
             3 => 100.0,
             4 => -3.0,
-            5 => 0.001,
-            6 => 12345.678,
+            5 => *r.pick(&[0.001, -5.0, -1.0, -0.0, 7.0, 12000.0, -250.0]),
+            6 => *r.pick(&[12345.678, 9007199254740992.0, -9223372036854775808.0, 18446744073709551616.0, -9007199254740992.0, 4294967296.0]),
             _ => {
                 let mag = 10f64.powf(r.unit_f64() * 12.0 - 4.0);
                 let v = mag * (0.5 + r.unit_f64());
@@ -1580,6 +1683,55 @@ mod state {
         }
     }
 
+    /// every ordered pair of units of every family through set / get / add; initial values spelled every way JSON allows
+    fn boundary4(st: &mut Stream) {
+        let case = |cfg: Vec<(String, Feat)>, tm: Vec<(String, Feat)>, am: Vec<(String, Feat)>, user: User| Case { cfg, tm, am, user, ops: vec![] };
+        for fam in 0..3usize {
+            let name = ["distance", "time", "energy_liquid"][fam];
+            for fu in 0..fam_units(fam) {
+                // the feature is kept in unit fu (declared by the model in another unit, set by the query)
+                let mut c = case(
+                    vec![],
+                    vec![(s(name), Feat::Unit(fam, (fu + 1) % fam_units(fam), 0.0))],
+                    vec![],
+                    User::Some(vec![(s(name), Feat::Unit(fam, fu, 3.0))]),
+                );
+                for u in 0..fam_units(fam) {
+                    c.ops.push(Op::Set(s(name), fam, u, 36.0));
+                    c.ops.push(Op::Get(s(name), fam, fu));
+                    c.ops.push(Op::Get(s(name), fam, u));
+                    c.ops.push(Op::Add(s(name), fam, u, 1.5));
+                    c.ops.push(Op::Get(s(name), fam, fu));
+                    c.ops.push(Op::Rt(s(name), fam, u, 432.0));
+                    c.ops.push(Op::AddN(s(name), fam, u, 2.0, 12));
+                }
+                add_case(st, c, "every_unit_pair");
+            }
+        }
+        // whole-number initial values: negative, zero, minus zero, thousands, the ends of the integer ranges; the position
+        // in the list picks the spelling (integer literal / float literal / exponent form), so rotate the list
+        let vals = [-5.0, 5.0, 0.0, -0.0, -12000.0, 3000.0, 9007199254740992.0, 18446744073709551616.0, -9223372036854775808.0, -1.0, 1.0];
+        for rot in 0..3usize {
+            let mut cfg = vec![];
+            let mut tm = vec![];
+            let mut user = vec![];
+            for (i, x) in vals.iter().enumerate() {
+                let name = NAMES[(i + rot) % NAMES.len()];
+                let fam = (i + rot) % 3;
+                let f = Feat::Unit(fam, i % fam_units(fam), *x);
+                if i % 2 == 0 {
+                    cfg.push((s(name), f));
+                } else {
+                    tm.push((s(name), Feat::Unit(fam, 0, 1.0)));
+                    user.push((s(name), f));
+                }
+            }
+            let mut c = case(cfg, tm, vec![], User::Some(user));
+            c.ops = vec![Op::Get(s(NAMES[rot]), rot % 3, 0)];
+            add_case(st, c, "initial_value_spellings");
+        }
+    }
+
     /// a follow-up query on the same application: the same names with other definitions, or something else entirely
     fn follow_up(r: &mut Rng, first: &Case) -> Case {
         let mut c = first.clone();
@@ -1714,6 +1866,7 @@ mod state {
         boundary(&mut st);
         boundary2(&mut st);
         boundary3(&mut st);
+        boundary4(&mut st);
         let mut rng = Rng::new(a.seed ^ 0x5717_A7E5);
         while st.next_id() < a.n {
             let mut r = rng.fork();
